@@ -234,15 +234,19 @@ def _divmod_noassert(x, cdiv):
     xz, cz = z3.simplify(I(x)), z3.simplify(I(cdiv))
     key = (xz.get_id(), cz.get_id())
     if key in c._divcache:
-        return c._divcache[key][:2]
+        ent = c._divcache[key]
+        if getattr(c, "solving", False) and len(ent) > 4:
+            c.path.extend(ent[4])          # a query that mentions this quotient/remainder needs their defining facts too
+        return ent[:2]
     q, r = c.fresh_int("q"), c.fresh_int("r")
     c.keep += [xz, cz]
-    c.assume(Implies(cz > 0, And(xz == q * cz + r, r >= 0, r < cz)))
+    facts = [Implies(cz > 0, And(xz == q * cz + r, r >= 0, r < cz))]
     for (q2, r2) in c._divs_by_c.get(cz.get_id(), []):
         d = q - q2
-        c.assume(z3.Or(d <= -2, d == -1, d == 0, d == 1, d >= 2))
+        facts.append(z3.Or(d <= -2, d == -1, d == 0, d == 1, d >= 2))
+    c.assume(*facts)
     c._divs_by_c.setdefault(cz.get_id(), []).append((q, r))
-    c._divcache[key] = (q, r, xz, cz)
+    c._divcache[key] = (q, r, xz, cz, facts)
     return q, r
 
 
@@ -523,3 +527,14 @@ def prefix_monotone(C, fa, n, oid="prefix.nonneg"):
     c.assume(Forall(lambda i: Implies(And(I(i) >= 0, I(i) <= I(n)), C(i) >= 0), triggers=[C], name="L1 prefix >= 0"))
     c.assume(PairForall(C, lambda a, b: Implies(And(a >= 0, a <= b, b <= I(n)), C(a) <= C(b)), name="L3 prefix monotone"))
     c.assume(Forall(lambda i: Implies(And(I(i) >= 0, I(i) <= I(n)), C(i) <= C(I(n))), triggers=[C], name="L3 prefix <= total"))
+
+
+def prefix_congruent(C1, f1, C2, f2, n, oid="prefix.congruent"):
+    """Engine lemma L6 (pyvc/lemmas.py): if f1(k) == f2(k) for 0 <= k < n then the exclusive prefix sums agree on [0, n].
+    The premise is obliged here; the conclusion becomes an instantiable hypothesis."""
+    c = ctx()
+    use("engine lemma: equal summands have equal prefix sums (pyvc/lemmas.py L6)")
+    c.oblige("%s:%s" % (c.fname, oid), Forall(lambda k: Implies(in_range(k, n), I(f1(k)) == I(f2(k)))), "lemma-premise", None,
+             "the two summand sequences agree element-wise (premise of the prefix-sum congruence lemma)")
+    c.assume(Forall(lambda i: Implies(And(I(i) >= 0, I(i) <= I(n)), C1(i) == C2(i)), triggers=[C1], name="L6 congruence"))
+    c.assume(Forall(lambda i: Implies(And(I(i) >= 0, I(i) <= I(n)), C1(i) == C2(i)), triggers=[C2], name="L6 congruence'"))
